@@ -3,7 +3,7 @@ import re
 
 from ..cfg import Renderer, walk, show, flat_guards, branches
 from ..facts import callee_names, short
-from ..util import view, crate_fns, root_name, expr_calls, expr_fields, expr_vars, field_writes, agg_field
+from ..util import loops, view, crate_fns, root_name, expr_calls, expr_fields, expr_vars, field_writes, agg_field
 from .c07 import OUT, CONN, outputs_in, state_conds
 
 EXPLANATION = (
@@ -137,6 +137,8 @@ def run(prog, rep, tier):
                             "%s(%s) is emitted without testing the value is non-zero and the driver arms sleep(n) unconditionally: with a negotiated hold time of 0 the timer fires at once"
                             % (what, show(e, 40)), fv.loc(bi))
 
+    r5 = rep.rule("R08.5", "every message the validator hands out is fed to the FSM (an UPDATE restarts the hold timer whatever happens to its routes)")
+    check_every_message_fed(prog, r5)
     r4 = rep.rule("R08.4", "driver feeds timer-expiry inputs only from the matching timer future")
     check_driver_inputs(prog, r4)
     check_timer_replacement(prog, r4)
@@ -313,3 +315,37 @@ def check_driver_inputs(prog, r):
             else:
                 r.fail(root_name(prog, k), "expiry-source:" + v, "%s is fed to the FSM without polling %s" % (v, want[v]), fv.loc(bi))
     r.floor("driver sites feeding timer-expiry inputs", n, 2)
+
+
+def check_every_message_fed(prog, r):
+    """run_select iterates over the messages validate_message produced from one received frame and hands each to rx_msg, which
+    feeds the FSM (Input::MessageReceived): that is what restarts the hold timer for an UPDATE.  A `continue` that skips rx_msg for
+    some messages (routes dropped for an AS loop, ..) makes a peer that sends only such UPDATEs look silent: RFC 4271 lets it
+    omit KEEPALIVEs while it sends UPDATEs, so the session dies of hold-timer expiry although the peer is alive."""
+    rs = prog.one(r"rustybgpd::event::PeerSession::run_select")
+    fv = view(prog, prog.body_key(rs))
+    r.analysed(prog.name(rs))
+    vm = [b for b, t in fv.calls(re.compile(r"rustybgp_packet::bgp::validate_message$"))]
+    rx = [b for b, t in fv.calls(re.compile(r"rustybgpd::event::PeerSession::rx_msg$"))]
+    if not vm or not rx:
+        r.unanalysable("run_select: validate_message x%d, rx_msg x%d" % (len(vm), len(rx)), fv.loc())
+        return
+    # the loop over the validator's messages: the innermost loop that contains an rx_msg call and whose Iterator::next sits behind validate_message
+    cands = [(h, body) for h, body, backs in loops(fv) if any(x in body for x in rx) and any(fv.dominates(v, h) for v in vm)]
+    if not cands:
+        r.unanalysable("run_select: no loop over the validated messages contains rx_msg", fv.loc(rx[0]))
+        return
+    h, body = min(cands, key=lambda x: len(x[1]))
+    nexts = [b for b in body if fv.blocks[b]["t"]["t"] == "call" and (fv.blocks[b]["t"]["f"].get("name") or "").endswith("Iterator::next")]
+    if not nexts:
+        r.unanalysable("run_select: the message loop has no Iterator::next", fv.loc(h))
+        return
+    nb = min(nexts, key=lambda b: 0 if fv.dominates(b, rx[0]) else 1)
+    # from the `Some(msg)` outcome, can the loop head (next iteration) be reached again without passing rx_msg?
+    after = fv.reach_after(nb, [x for x in rx if x in body] + [b for b in fv.live if b not in body])
+    # leaving the loop through the None edge is fine; coming back to `next` (another iteration) without rx_msg is not
+    if nb in after:
+        r.fail(prog.name(rs), "message-not-fed", "an iteration of the loop over the validated messages can end without calling rx_msg: that message never reaches the FSM, so an UPDATE that is "
+               "skipped this way does not restart the hold timer (and is not an FSM error outside Established)", fv.loc(nb))
+    else:
+        r.ok("run_select: every message produced by validate_message is handed to rx_msg")
